@@ -16,6 +16,11 @@ Mirrors `memento.py` (`__init__` registration and generation bump, `clone_with`,
 * `gen` / `cache` are `_global_fn_generation` / `_global_fn_version_cache`.
 * Functions of other packages (`defForeign`) get no rule; the symbols bound to them are watched without a rule (fix F27:
   `HashRuleSet.watched_symbols`, `_watched_symbols`), so re-binding such a symbol is noticed like any other change.
+* `locked` is `FunctionCluster.locked` of the (single) cluster: while it is set, an instance that already has a version answers it
+  without looking at anything (`_update_dependencies`: "Do not recompute version if the cluster is locked"), and the registration of
+  a memento function is refused (`Environment.register_function` raises): the `def` statement fails, the name keeps its binding —
+  but the generation has been incremented and the version cache written by then, which the model reproduces. (Re-executing, while
+  locked, a definition whose name and version are registered already is accepted by the code; the model leaves it out.)
 * `hist` is ghost state (every `Bound` ever created), used only to state invariants.
 Core-only, total, executable. The enumeration order of reference sets is fixed to `id` (C03: irrelevant).
 -/
@@ -115,6 +120,7 @@ structure St where
   cache : List (Name × Nat × List Char) := []
   insts : List Inst := []
   next : Nat := 0
+  locked : Bool := false            -- `FunctionCluster.locked`
   hist : List Bound := []           -- ghost
 deriving Repr
 
@@ -135,6 +141,7 @@ inductive Ev
   | wrapper (n : Name)
   | alias (n m : Name)            -- `n = m`: bind a second name to the object `m` is bound to
   | query (i : Nat)
+  | lock (b : Bool)               -- `cluster.locked = b`
 deriving Repr
 
 def setInst (l : List Inst) (i : Nat) (x : Inst) : List Inst := l.set i x
@@ -160,6 +167,7 @@ def query (H : Ser → List Char) (s : St) (i : Nat) : St × Option (List Char) 
       match b.d with
       | .memento (some e) _ _ => (s, some e)        -- explicit version: static
       | _ =>
+        if s.locked && inst.cver.isSome then (s, inst.cver) else       -- locked cluster: the version is frozen
         match cacheGet s.cache inst.name with
         | some (g, v) =>
           if g == s.gen && !inst.snaps.isEmpty then
@@ -180,6 +188,14 @@ def query (H : Ser → List Char) (s : St) (i : Nat) : St × Option (List Char) 
 def step (H : Ser → List Char) (s : St) : Ev → St × Option (List Char)
   | .defMemento n e tok refs =>
     let b : Bound := ⟨s.next, .memento e tok refs⟩
+    if s.locked then
+      -- refused: `__init__` has incremented the generation and `register_function` has asked the new object for its reference
+      -- (which computes its version and writes the cache entry of the name) before the lock is looked at; nothing is bound
+      ({ s with gen := s.gen + 1,
+                cache := (match e with
+                          | some _ => s.cache
+                          | none => cacheSet s.cache n (s.gen + 1, version H (progOf (bind s.sym n b)) id n)) }, none)
+    else
     -- registration bumps the generation; the new function object is an instance of its own;
     -- instances wrapping the previous object of that name are no longer live (they stay in the list)
     ({ s with sym := bind s.sym n b, next := s.next + 1, hist := b :: s.hist, gen := s.gen + 1,
@@ -206,6 +222,7 @@ def step (H : Ser → List Char) (s : St) : Ev → St × Option (List Char)
     | some b => ({ s with sym := bind s.sym n b }, none)
     | none => (s, none)
   | .query i => query H s i
+  | .lock b => ({ s with locked := b }, none)
 
 def run (H : Ser → List Char) (s : St) : List Ev → St
   | [] => s
